@@ -352,11 +352,12 @@ def step (st : St) (op impl : List String) : St × Verdict :=
         let st' := withLayer { st with s := s' } layT
         ({ st' with orc := { st'.orc with limit := b, limitKeySeen := false } }, match ov with | some m => .oracle m | none => v)
       | none => (st, .badop "setlimit")
+    else if kind = "racestress" then
+      -- op-atomic theorems (C04_feedback_keeps_layer) + the layer mutex: a concurrent adjustLayer never
+      -- changes sid/tid between two Writes
+      (st, if impl = ["ok"] then .ok
+           else .oracle s!"C04: a concurrent adjustLayer moved the current layer between two packets: {" ".intercalate impl}")
     else (st, .badop "unknown op")
-  | ["racestress", _] =>
-    -- op-atomic theorems (C04_feedback_keeps_layer) + the layer mutex: a concurrent adjustLayer never
-    -- changes sid/tid between two Writes
-    (st, if impl = ["ok"] then .ok else .oracle s!"C04: a concurrent adjustLayer moved the current layer between two packets: {" ".intercalate impl}")
   | ["layer"] => (withLayer st impl, cmp (layerS (unpack st.s.word)) impl)
   | ["adjust"] =>
     let s' := adjustLayer C st.s
